@@ -1632,7 +1632,7 @@ def _verify_ensemble_config(model_config):
                        'features.')
     # Check that there are only monotonicity and bound constraints.
     if any(
-        feature_config.unimodality != 'none' and feature_config.unimodality != 0
+        utils.canonicalize_unimodalities([feature_config.unimodality]) != [0]
         for feature_config in model_config.feature_configs):
       raise ValueError(
           'RTL Layer does not currently support unimodality constraints.')
@@ -1705,7 +1705,7 @@ def _verify_kronecker_factored_config(model_config):
                      'lattice size for all features.')
   # Check that there are only monotonicity and bound constraints.
   if any(
-      feature_config.unimodality != 'none' and feature_config.unimodality != 0
+      utils.canonicalize_unimodalities([feature_config.unimodality]) != [0]
       for feature_config in model_config.feature_configs):
     raise ValueError(
         'KroneckerFactoredLattice layer does not currently support unimodality '
